@@ -94,9 +94,11 @@ def get_fe_ev_lines(args):
         temps, fe = get_free_energy_at_T(
             args.tmin, args.tmax, args.tstep, eigenvalues, weights, n_electrons
         )
+        # Reference is the electronic free energy at T=0, also when tmin > 0.
+        _, fe0 = get_free_energy_at_T(0, 0, 1, eigenvalues, weights, n_electrons)
         volumes.append(vxml.volume[-1])
         energy_sigma0.append(energy)
-        free_energies.append(energy - fe[0] + fe)
+        free_energies.append(energy - fe0[0] + fe)
         if temperatures is None:
             temperatures = temps
         else:
